@@ -35,7 +35,9 @@ func init() {
 		ID: "C33", Level: "exploration",
 		Rule: "one case = one scenario (2-3 ledgers with 100-2000 logs produced concurrently, 2-4 pipelines over 1-2 exporters, " +
 			"an exporter failure pattern per pipeline, a storage fault plan, a sequence of start/stop/reset/manager-restart/exporter-down/up operations); " +
-			"shape = scenario class x collapsed op-kind sequence x accept patterns x storage fault kinds x sync mode; " +
+			"in 5 of 16 scenarios of the random class every exporter is the recording driver wrapped in the REAL drivers.Batcher (maxItems 1-16 smaller than the page, or unlimited; flush interval 0.15-1.35 ms) " +
+			"and the exporter refuses chosen chunks of one Accept call (first / middle / last / all but the last / all but the first / every other one, globally or per item); " +
+			"shape = scenario class x collapsed op-kind sequence x accept patterns x storage fault kinds x sync mode x batching; " +
 			"non-trivial iff the scenario delivered >= 1 acknowledged batch and contained >= 1 fired fault or >= 1 control operation",
 		Assumptions: []string{
 			"the in-memory replication.Storage (c33Mem) is trusted: ListLogs answers `id > last ORDER BY id ASC LIMIT pageSize+1` like the real column paginator; StorePipelineState / UpdatePipeline are single-row atomic writes (what one SQL UPDATE gives)",
@@ -44,6 +46,7 @@ func init() {
 			"scheduling is the Go scheduler's (free running); interleavings are sampled, not enumerated; the targeted classes force the reset-vs-late-store and cancelled-stop orders with storage-side holds",
 			"liveness is bounded progress: after faults and production stop, every log acknowledged within 200+ceil(n/pageSize) ListLogs polls of the pipeline; a wall-clock watchdog (60 s) only ever yields inconclusive",
 			"handler termination is observed through the logger message 'Pipeline terminated.' (zombie oracle only)",
+			"batched exporters: a log is accepted only when the recording driver below the real Batcher returned nil (and no item error) for the chunk containing it; the persisted cursor is compared with the contiguous accepted prefix since the last reset; logs the Batcher still holds from a call of the run before a reset are duplicates and prove nothing; the flush interval only decides how a call is cut into chunks, never a verdict. With a batcher a chunk following a refused chunk of the same call is still delivered (ids ahead of a hole, replayed by the retry): counted (batched_logs_accepted_ahead_of_a_refused_chunk), not a violation",
 		},
 		Run: runC33,
 	})
@@ -66,6 +69,9 @@ func runC33(r *core.Run) {
 	r.Floor("polls", 10000)
 	r.Floor("accept_errors", 200)
 	r.Floor("resets_racing_a_held_store", 20) // ResetPipeline ran while the pipeline's last StorePipelineState was still inside the storage
+	r.Floor("batched_scenarios", 60)
+	r.Floor("batched_calls_flushed_in_several_chunks", 2000)
+	r.Floor("batched_calls_with_a_refused_chunk_and_an_accepted_last_chunk", 100) // the Batcher had to report a failure although its last flush succeeded
 	r.ForEach("main", r.N(320, 4000), 0, func(c *core.Case) {
 		sc := c33Generate(c.Rng, c.Index, r.Quick(), false)
 		c33Execute(r, c, sc, false)
@@ -89,7 +95,42 @@ func c33Class(idx int, race bool) string {
 	return "random"
 }
 
+// c33Batched: which scenarios of the random class run their exporters behind the real Batcher.
+func c33Batched(idx int) bool { return idx%4 == 1 || idx%8 == 2 }
+
+func c33AddBatching(rng *rand.Rand, sc *c33Scenario, race bool) {
+	pick := func(xs ...int) int { return xs[rng.Intn(len(xs))] }
+	if sc.PageSize < 7 {
+		sc.PageSize = pick(7, 10, 25, 50)
+	}
+	mi := pick(1, 2, 3, 4, 7, 16)
+	for mi >= sc.PageSize {
+		mi /= 2
+	}
+	if rng.Intn(12) == 0 {
+		mi = 0 // unlimited: a call is flushed by the interval only
+	}
+	sc.Batch = &c33BatchPlan{MaxItems: mi, FlushUS: 150 + rng.Intn(1200)}
+	if race {
+		return
+	}
+	pos := []string{"first", "middle", "last", "not-last", "not-first", "even", "odd"}
+	for i := range sc.Pipes {
+		if rng.Intn(2) == 0 {
+			sc.Pipes[i].Accept = c33AcceptPlan{Kind: "chunk-fail", Pos: pos[rng.Intn(len(pos))], K: 1 + rng.Intn(8), Every: 1 + rng.Intn(3)}
+		}
+	}
+}
+
 func c33Generate(rng *rand.Rand, idx int, quick, race bool) *c33Scenario {
+	sc := c33GenerateBase(rng, idx, quick, race)
+	if sc.Class == "random" && c33Batched(idx) {
+		c33AddBatching(rng, sc, race)
+	}
+	return sc
+}
+
+func c33GenerateBase(rng *rand.Rand, idx int, quick, race bool) *c33Scenario {
 	sc := &c33Scenario{Class: c33Class(idx, race)}
 	pick := func(xs ...int) int { return xs[rng.Intn(len(xs))] }
 	maxTotal := 2000
@@ -265,7 +306,11 @@ func c33Shape(sc *c33Scenario) string {
 	if sc.SyncUS > 0 {
 		sync = "sync"
 	}
-	return sc.Class + "|" + strings.Join(ops, ",") + "|" + strings.Join(acc, ",") + "|" + strings.Join(sf, ",") + "|" + sync
+	batch := ""
+	if sc.Batch != nil {
+		batch = fmt.Sprintf("|batcher(maxItems=%d)", sc.Batch.MaxItems)
+	}
+	return sc.Class + "|" + strings.Join(ops, ",") + "|" + strings.Join(acc, ",") + "|" + strings.Join(sf, ",") + "|" + sync + batch
 }
 
 // ---------- executor ----------
@@ -598,13 +643,14 @@ func c33Execute(r *core.Run, c *core.Case, sc *c33Scenario, light bool) {
 	for _, pp := range sc.Pipes {
 		p := &c33Pipe{plan: pp, key: pp.Ledger + "/" + pp.Exporter, total: totals[pp.Ledger]}
 		p.budget = int64(200 + (p.total+sc.PageSize-1)/sc.PageSize)
+		p.batched = sc.Batch != nil
 		x.mon.byKey[p.key] = p
 		x.mon.byNm[pp.Name] = p
 		exporters[pp.Exporter] = true
 	}
 	x.st = newC33Storage(x.mem, x.mon, sc.Store, x.wd)
-	x.fac = &c33Factory{mon: x.mon, mem: x.mem, startUS: sc.Store.StartDelayUS}
 	x.logger = newC33Logger(x.mon)
+	x.fac = &c33Factory{mon: x.mon, mem: x.mem, startUS: sc.Store.StartDelayUS, batch: sc.Batch, logger: x.logger}
 	for e := range exporters {
 		x.mem.exporters[e] = &ledger.Exporter{ID: e, ExporterConfiguration: ledger.NewExporterConfiguration("c33", []byte(`{}`))}
 	}
@@ -798,6 +844,36 @@ func (x *c33Exec) report(ok bool) {
 	r.Count("driver_stops", m.nDriverStops.Load())
 	r.Count("stores_from_pre_reset_run_applied_after_reset", m.nLateStoreWindows.Load())
 	r.Count("events_recorded", int64(len(m.events)))
+	if sc.Batch != nil {
+		r.Count("batched_scenarios", 1)
+		r.Seen("batched_max_items", fmt.Sprint(sc.Batch.MaxItems))
+		r.Count("batched_accept_calls", m.nOuterCalls.Load())
+		r.Count("batched_accept_calls_returning_nil", m.nOuterOK.Load())
+		r.Count("batched_accept_calls_returning_an_error", m.nOuterErr.Load())
+		r.Count("batched_chunks", m.nChunks.Load())
+		r.Count("batched_chunks_refused", m.nChunkRefused.Load())
+		r.Count("batched_chunks_refused_with_a_global_error", m.nGlobalErrs.Load())
+		r.Count("batched_chunks_refused_per_item", m.nPerItemErrChunks.Load())
+		r.Count("batched_chunks_mixing_pipelines", m.nMixedChunks.Load())
+		r.Count("batched_calls_with_a_refused_chunk_and_an_accepted_last_chunk", m.nFailedThenOKLast.Load())
+		r.Count("batched_calls_returning_nil_with_unaccepted_logs", m.nOuterNilWithRefusedChunk.Load())
+		r.Count("batched_logs_accepted_ahead_of_a_refused_chunk", m.nAheadItems.Load())
+		r.Count("batched_stale_logs_flushed_after_a_reset", m.nStaleItems.Load())
+		r.Count("batched_accept_panics", m.nBatcherPanics.Load())
+		m.mu.Lock()
+		for k, v := range m.chunksPerCall {
+			r.Count("batched_calls_flushed_in_"+k+"_chunks", v)
+			r.Seen("batched_chunks_per_call", k)
+			if k != "0" && k != "1" {
+				r.Count("batched_calls_flushed_in_several_chunks", v)
+			}
+		}
+		for k, v := range m.failPos {
+			r.Count("batched_refused_chunk_position_"+k, v)
+			r.Seen("batched_refused_chunk_positions", k)
+		}
+		m.mu.Unlock()
+	}
 	r.Seen("scenario_classes", sc.Class)
 	for _, p := range sc.Pipes {
 		r.Seen("accept_patterns", p.Accept.Kind)
